@@ -89,8 +89,22 @@ func TestDeadlock(t *testing.T) {
 		var a, b simsync.Mutex
 		var wg simsync.WaitGroup
 		wg.Add(2)
-		simrt.Go(func() { a.Lock(); simrt.Gosched(); b.Lock(); b.Unlock(); a.Unlock(); wg.Done() })
-		simrt.Go(func() { b.Lock(); simrt.Gosched(); a.Lock(); a.Unlock(); b.Unlock(); wg.Done() })
+		simrt.Go(func() {
+			a.Lock()
+			simrt.Gosched()
+			b.Lock()
+			b.Unlock()
+			a.Unlock()
+			wg.Done()
+		})
+		simrt.Go(func() {
+			b.Lock()
+			simrt.Gosched()
+			a.Lock()
+			a.Unlock()
+			b.Unlock()
+			wg.Done()
+		})
 		wg.Wait()
 	})
 	// schedule all-zeros: g0 keeps running until it blocks; then g1 runs to Gosched...; ABBA needs a switch
